@@ -16,6 +16,7 @@ def flat_ops(ops):
 
 
 class GroupSpec(SeqSpec):
+    ctx_zoo = True      # contexts come from the zoo (cause / DeadlineExceeded / plain), see vlib.apply_ctx_zoo
     component = "group"
     imports = "From Juniper Require Import Common.Base Conc.GoLTS Conc.Group.\nFrom Juniper Require Conc.GroupMatcher."
     # a rejection counts only when certified genuine (GroupMatcher.group_reject_genuine: closures converged within the fuel)
